@@ -98,7 +98,7 @@ func resolveNAT(p *Prog) *natRoles {
 	byCall := func(from *ssa.Function) *ssa.Function {
 		var h *ssa.Function
 		n := 0
-		instrsOf(from, func(in ssa.Instruction) {
+		instrsOfU(from, func(in ssa.Instruction) {
 			if cl, ok := in.(*ssa.Call); ok {
 				if sc := cl.Call.StaticCallee(); sc != nil && inModule(sc) && sc.Signature.Results().Len() == 1 &&
 					typeName(sc.Signature.Results().At(0).Type()) == mapT && sc.Signature.Params().Len() == 1 &&
@@ -497,7 +497,7 @@ func switchTable(v ssa.Value, field string) map[string]string {
 					if leaf.pred != nil {
 						facts = append(guardsOfBlock(leaf.pred), lastBranchFact(leaf.pred, ret.Block())...)
 					}
-					put(labelOf(facts, func(y ssa.Value) bool { return y == ssa.Value(sel) }), addrClass(leaf.v))
+					put(labelOf(facts, func(y ssa.Value) bool { return sameOrigin(y, ssa.Value(sel)) }), addrClass(leaf.v))
 				}
 			}
 		}
@@ -657,7 +657,7 @@ func runC02(c *Ctx) {
 	wantSkel := map[string]string{fOut: "PROTO : V : V", fIn: "PROTO : V"}
 	comps := map[string][][]string{}
 	var creation *ssa.Alloc
-	instrsOf(r.out, func(in ssa.Instruction) {
+	instrsOfU(r.out, func(in ssa.Instruction) {
 		if a, ok := in.(*ssa.Alloc); ok && typeName(a.Type()) == mapT {
 			creation = a
 		}
@@ -668,7 +668,7 @@ func runC02(c *Ctx) {
 			if fa, ok := rf.(*ssa.FieldAddr); ok {
 				fr, _ := asFieldAddr(fa)
 				for _, rr := range *fa.Referrers() {
-					if st, ok := rr.(*ssa.Store); ok && st.Addr == ssa.Value(fa) {
+					if st, ok := rr.(*ssa.Store); ok && sameOrigin(st.Addr, ssa.Value(fa)) {
 						eq[fr.Field] = st.Val
 					}
 				}
@@ -733,7 +733,7 @@ func runC02(c *Ctx) {
 		for _, m := range []string{fOut, fIn} {
 			isIns := func(in ssa.Instruction) bool {
 				mu, ok := in.(*ssa.MapUpdate)
-				return ok && isFieldLoad(mu.Map, natT, m) && mu.Value == ssa.Value(creation)
+				return ok && isFieldLoad(mu.Map, natT, m) && sameOrigin(mu.Value, ssa.Value(creation))
 			}
 			if ok, bad := mustPassU(posAfter(creation), func(in ssa.Instruction) bool { return isSuccessReturnOf(in, 1) && retChunkNonNil(in) }, isIns); !ok {
 				o.Fail(bad.Pos(), "a new mapping is not registered in %s on every path to the successful return", m)
@@ -804,7 +804,7 @@ func runC02(c *Ctx) {
 	if !helperRefreshes {
 		// then the caller must refresh on the found edge
 		var call *ssa.Call
-		instrsOf(r.out, func(in ssa.Instruction) {
+		instrsOfU(r.out, func(in ssa.Instruction) {
 			if cl, ok := in.(*ssa.Call); ok && cl.Call.StaticCallee() == r.findOut {
 				call = cl
 			}
@@ -818,7 +818,7 @@ func runC02(c *Ctx) {
 				}
 				for k := 0; k < 2; k++ {
 					ft := fact{Cond: iff.Cond, Val: k == 0, If: iff}
-					if nilFact(ft, func(v ssa.Value) bool { return v == ssa.Value(call) }, false) && len(b.Succs[k].Preds) == 1 {
+					if nilFact(ft, func(v ssa.Value) bool { return sameOrigin(v, ssa.Value(call)) }, false) && len(b.Succs[k].Preds) == 1 {
 						// b.Succs[k] is the entry of the found edge
 						if ok, _ := mustPassU(blockStart(b.Succs[k]), func(in ssa.Instruction) bool { return isSuccessReturnOf(in, 1) }, isRefresh); ok {
 							okCaller = true
@@ -911,7 +911,7 @@ func runC02(c *Ctx) {
 		}
 	} else {
 		// no allocator helper: the mapped address is built where the mapping is created
-		instrsOf(r.out, func(in ssa.Instruction) {
+		instrsOfU(r.out, func(in ssa.Instruction) {
 			if st, ok := in.(*ssa.Store); ok && isFieldStore(st, mapT, mMapped) {
 				addrVals = append(addrVals, st.Val)
 			}
@@ -1071,7 +1071,7 @@ func runC02(c *Ctx) {
 						ia2, ok := uu.X.(*ssa.IndexAddr)
 						return ok && isFieldLoad(ia2.X, natT, over) && ia2.Index == ia.Index
 					}
-					return (fromOver(a0) && a1 == ssa.Value(f.Params[1])) || (fromOver(a1) && a0 == ssa.Value(f.Params[1]))
+					return (fromOver(a0) && sameOrigin(a1, ssa.Value(f.Params[1]))) || (fromOver(a1) && sameOrigin(a0, ssa.Value(f.Params[1])))
 				}, true)
 			})
 			o.Site(v.Pos(), "%s returns %s[i] where %s[i].Equal(arg): %v", f.Name(), ret, over, eqFact)
@@ -1225,7 +1225,7 @@ func runC03(c *Ctx) {
 	IN, OUT := r.in, r.out
 
 	var findCall *ssa.Call
-	instrsOf(IN, func(in ssa.Instruction) {
+	instrsOfU(IN, func(in ssa.Instruction) {
 		if cl, ok := in.(*ssa.Call); ok && cl.Call.StaticCallee() == r.findIn {
 			findCall = cl
 		}
@@ -1254,11 +1254,11 @@ func runC03(c *Ctx) {
 				return false
 			}
 			fr, _ := asFieldLoad(lk.X)
-			return lk.Index == ssa.Value(inPh[0]) && findCall != nil && fr.Base == ssa.Value(findCall)
+			return sameOrigin(lk.Index, ssa.Value(inPh[0])) && findCall != nil && sameOrigin(fr.Base, ssa.Value(findCall))
 		}, true)
 	}
 	isMapFound := func(ft fact) bool {
-		return nilFact(ft, func(v ssa.Value) bool { return findCall != nil && v == ssa.Value(findCall) }, false)
+		return nilFact(ft, func(v ssa.Value) bool { return findCall != nil && sameOrigin(v, ssa.Value(findCall)) }, false)
 	}
 	nRew := 0
 	for _, in := range findU(IN, func(in ssa.Instruction) bool { return isSetAddr(in, "setDestinationAddr") }) {
@@ -1276,7 +1276,7 @@ func runC03(c *Ctx) {
 		// R5 owner
 		a := in.(*ssa.Call).Call.Args[0]
 		fr, ok := asFieldLoad(a)
-		if !ok || fr.SName != mapT || fr.Field != mLocal || findCall == nil || fr.Base != ssa.Value(findCall) {
+		if !ok || fr.SName != mapT || fr.Field != mLocal || findCall == nil || !sameOrigin(fr.Base, ssa.Value(findCall)) {
 			o.Fail(in.Pos(), "the destination is not rewritten to the internal address (.local) of the mapping found for the datagram's destination")
 		}
 	}
@@ -1299,15 +1299,15 @@ func runC03(c *Ctx) {
 	}
 	// success returns of IN in NAPT mode are after the rewrite; the returned chunk is the clone that was rewritten
 	var clone *ssa.Call
-	instrsOf(IN, func(in ssa.Instruction) {
-		if cl, ok := in.(*ssa.Call); ok && cl.Call.IsInvoke() && cl.Call.Method.Name() == "Clone" && cl.Call.Value == ssa.Value(IN.Params[1]) {
+	instrsOfU(IN, func(in ssa.Instruction) {
+		if cl, ok := in.(*ssa.Call); ok && cl.Call.IsInvoke() && cl.Call.Method.Name() == "Clone" && sameOrigin(cl.Call.Value, ssa.Value(IN.Params[1])) {
 			clone = cl
 		}
 	})
 	for _, in := range findInstrs(IN, func(in ssa.Instruction) bool { return isSuccessReturnOf(in, 1) }) {
 		ret := in.(*ssa.Return)
 		for _, v := range retValAt(ret, 0) {
-			if clone == nil || v != ssa.Value(clone) {
+			if clone == nil || !sameOrigin(v, ssa.Value(clone)) {
 				o.Fail(in.Pos(), "translateInbound returns something else than the clone of the datagram")
 			}
 		}
@@ -1318,7 +1318,7 @@ func runC03(c *Ctx) {
 	for _, in := range findU(IN, func(in ssa.Instruction) bool {
 		return isSetAddr(in, "setDestinationAddr") || isSetAddr(in, "setSourceAddr")
 	}) {
-		if clone == nil || in.(*ssa.Call).Call.Value != ssa.Value(clone) {
+		if clone == nil || !sameOrigin(in.(*ssa.Call).Call.Value, ssa.Value(clone)) {
 			o.Fail(in.Pos(), "the address is rewritten on the original chunk, not on the clone")
 		}
 	}
@@ -1326,14 +1326,14 @@ func runC03(c *Ctx) {
 	// R3 permission recorded on every outbound success path
 	o = c.Obl("R3", fname(OUT), "every successful NAPT outbound translation has the destination's permission key in the mapping's filter set (inserted, or found present), under the key chosen by the filtering behaviour; a new mapping starts with a fresh, empty permission set", 2)
 	var outFind *ssa.Call
-	instrsOf(OUT, func(in ssa.Instruction) {
+	instrsOfU(OUT, func(in ssa.Instruction) {
 		if cl, ok := in.(*ssa.Call); ok && cl.Call.StaticCallee() == r.findOut {
 			outFind = cl
 		}
 	})
 	isPerm := func(in ssa.Instruction) bool {
 		mu, ok := in.(*ssa.MapUpdate)
-		return ok && isFieldLoad(mu.Map, mapT, mFilt) && mu.Key == ssa.Value(outPh[0])
+		return ok && isFieldLoad(mu.Map, mapT, mFilt) && sameOrigin(mu.Key, ssa.Value(outPh[0]))
 	}
 	for _, in := range findU(OUT, func(in ssa.Instruction) bool {
 		mu, ok := in.(*ssa.MapUpdate)
@@ -1341,7 +1341,7 @@ func runC03(c *Ctx) {
 	}) {
 		mu := in.(*ssa.MapUpdate)
 		o.Site(in.Pos(), "filters[%s] = ...", mu.Key.Name())
-		if mu.Key != ssa.Value(outPh[0]) {
+		if !sameOrigin(mu.Key, ssa.Value(outPh[0])) {
 			o.Fail(in.Pos(), "a permission is recorded under %s, not under the key selected by the filtering behaviour: the reply of that remote is refused", addrClass(mu.Key))
 		}
 	}
@@ -1360,7 +1360,7 @@ func runC03(c *Ctx) {
 						return false
 					}
 					lk, ok := ex.Tuple.(*ssa.Lookup)
-					return ok && isFieldLoad(lk.X, mapT, mFilt) && lk.Index == ssa.Value(outPh[0])
+					return ok && isFieldLoad(lk.X, mapT, mFilt) && sameOrigin(lk.Index, ssa.Value(outPh[0]))
 				}, true) {
 					return true
 				}
@@ -1373,7 +1373,7 @@ func runC03(c *Ctx) {
 		}
 	}
 	// fresh permission set
-	instrsOf(OUT, func(in ssa.Instruction) {
+	instrsOfU(OUT, func(in ssa.Instruction) {
 		if st, ok := in.(*ssa.Store); ok && isFieldStore(st, mapT, mFilt) {
 			if _, isMk := st.Val.(*ssa.MakeMap); !isMk {
 				o.Fail(in.Pos(), "a new mapping does not start with a fresh permission set (permissions would leak between mappings)")
@@ -1409,7 +1409,7 @@ func runC03(c *Ctx) {
 	// R6 error => router drops
 	o = c.Obl("R6", fname(r.routerIn), "the child router pushes the inbound translation's result only when it returned no error, and pushes exactly that result", 1)
 	var tcall *ssa.Call
-	instrsOf(r.routerIn, func(in ssa.Instruction) {
+	instrsOfU(r.routerIn, func(in ssa.Instruction) {
 		if cl, ok := in.(*ssa.Call); ok && cl.Call.StaticCallee() == r.inEntry {
 			tcall = cl
 		}
@@ -1423,13 +1423,13 @@ func runC03(c *Ctx) {
 			o.Fail(in.Pos(), "the translated datagram is pushed from a new goroutine: datagrams of one flow can overtake each other")
 		}
 		ex, ok := cl.Common().Args[1].(*ssa.Extract)
-		if !ok || tcall == nil || ex.Tuple != ssa.Value(tcall) || ex.Index != 0 {
+		if !ok || tcall == nil || !sameOrigin(ex.Tuple, ssa.Value(tcall)) || ex.Index != 0 {
 			o.Fail(in.Pos(), "the router does not push the chunk returned by the inbound translation")
 		}
 		if !hasFact(in, func(ft fact) bool {
 			return nilFact(ft, func(v ssa.Value) bool {
 				e, ok := v.(*ssa.Extract)
-				return ok && tcall != nil && e.Tuple == ssa.Value(tcall) && e.Index == 1
+				return ok && tcall != nil && sameOrigin(e.Tuple, ssa.Value(tcall)) && e.Index == 1
 			}, true)
 		}) {
 			o.Fail(in.Pos(), "the router forwards although the inbound translation reported an error (refused datagram delivered)")
@@ -1449,7 +1449,7 @@ func runC03(c *Ctx) {
 		nilBlk := (*ssa.BasicBlock)(nil)
 		for _, b := range IN.Blocks {
 			for _, ft := range guardsOfBlock(b) {
-				if nilFact(ft, func(v ssa.Value) bool { return v == ssa.Value(in.(*ssa.Call)) }, true) && len(b.Preds) == 1 {
+				if nilFact(ft, func(v ssa.Value) bool { return sameOrigin(v, ssa.Value(in.(*ssa.Call))) }, true) && len(b.Preds) == 1 {
 					nilBlk = b
 				}
 			}
@@ -1641,7 +1641,7 @@ func bodyOf(f *ssa.Function) *ssa.Function {
 	}
 	cl := calls[0]
 	for i, a := range cl.Call.Args {
-		if i >= len(f.Params) || a != ssa.Value(f.Params[i]) {
+		if i >= len(f.Params) || !sameOrigin(a, ssa.Value(f.Params[i])) {
 			return f
 		}
 	}
@@ -1650,7 +1650,7 @@ func bodyOf(f *ssa.Function) *ssa.Function {
 		for k := range ret.(*ssa.Return).Results {
 			for _, v := range retValAt(ret.(*ssa.Return), k) {
 				ex, ok := v.(*ssa.Extract)
-				if !ok || ex.Tuple != ssa.Value(cl) || ex.Index != k {
+				if !ok || !sameOrigin(ex.Tuple, ssa.Value(cl)) || ex.Index != k {
 					return f
 				}
 			}
